@@ -146,6 +146,8 @@ class Builder:
         if name == "LinkIdx" and not isinstance(t, dict):
             return self.json("u32", t, model)
         if name in self.schema.structs:
+            if not self.schema.structs[name]:
+                return None  # unit struct
             out = {}
             t = t or {}
             for f in self.schema.structs[name]:
